@@ -302,6 +302,40 @@ def load_findings(prop):
     return out
 
 
+def run_fixed_reproducers(prop, out):
+    """regression guard of the repaired defects: every stand-alone reproducer corpus/fixed/<name>.py that a
+    'fixed: property=<prop> ...' line of the ledger names is run against the implementation under test; one that
+    fails (non-zero exit) is a property failure on a concrete input - the script itself is the replay"""
+    import subprocess
+    from concurrent.futures import ThreadPoolExecutor
+    names = []
+    for f in load_findings(prop)["fixed"]:
+        for nm in re.findall(r"corpus/fixed/([\w.]+\.py)", f["text"]):
+            if nm not in names and os.path.exists(os.path.join(VERIF, "corpus", "fixed", nm)):
+                names.append(nm)
+    env = impl_env()
+    env["PYTHONPATH"] += os.pathsep + os.path.join(VERIF, "harness", "drivers")
+    import tempfile
+
+    def one(nm):
+        path = os.path.join(VERIF, "corpus", "fixed", nm)
+        with tempfile.TemporaryDirectory(prefix="mxfix_") as d:
+            try:
+                r = subprocess.run(["timeout", "300", PY, path], env=env, cwd=d, stdout=subprocess.PIPE,
+                                   stderr=subprocess.STDOUT, text=True)
+                return nm, r.returncode, r.stdout[-600:]
+            except Exception as e:
+                return nm, -1, str(e)
+    with ThreadPoolExecutor(max_workers=6) as ex:
+        res = list(ex.map(one, names))
+    for nm, rc, tail in res:
+        if rc != 0:
+            out.p_failures.append({"case": {"script": "corpus/fixed/" + nm}, "script": open(os.path.join(VERIF, "corpus", "fixed", nm)).read(),
+                                   "detail": "the reproducer of a repaired defect fails again (exit %s): corpus/fixed/%s: %s" % (rc, nm, tail[-300:])})
+    out.extra["repaired_defect_reproducers_run"] = len(names)
+    out.extra["repaired_defect_reproducers_failing"] = [nm for nm, rc, _ in res if rc != 0]
+
+
 def witness_result(out, prop, key, fails, text, payload=None):
     """book-keeping for the stored witness of a recorded defect (README: Known defects)"""
     listed = {f["key"] for f in load_findings(prop)["finding"]}
@@ -377,6 +411,7 @@ def main(prop, module, argv):
         # 2. correspondence + property oracle
         rng = random.Random(seed)
         out = module.run(tier, seed, rng)
+        run_fixed_reproducers(prop, out)
     except Broken as e:
         print("CHECK-BROKEN property=%s: %s" % (prop, e))
         return 2
